@@ -2,6 +2,7 @@
 import ast
 from ..core import U, AnalysisError, parent, enclosing_stmt
 from ..facts import FactMap
+from .. import facts as FX
 from .. import headerrules as HR
 from .. import tables as TB
 from .. import producers as PR
@@ -345,8 +346,12 @@ def zero_fill(ctx):
         good = False
         for a in re_alloc:
             facts = fm.facts_at(a) or frozenset()
-            txt = U(a.value).replace(' ', '')
-            if ('T', 'isinstance(geom, InferredGeometry3d)') in facts and 'zeros(len(geom.ilines)*len(geom.xlines)' in txt and \
+            from .c11 import _factors
+            zs = [c for c in ast.walk(a.value) if isinstance(c, ast.Call) and U(c.func).split('.')[-1] == 'zeros' and c.args]
+            grid = bool(zs) and _factors(f, zs[0].args[0]) == ['len(geom.ilines)', 'len(geom.xlines)']
+            irregular = ('T', 'isinstance(geom, InferredGeometry3d)') in facts or any(
+                x[0] == 'T' and 'InferredGeometry3d' in FX.expand_defs(x[1], facts) for x in facts if len(x) == 2 and isinstance(x[1], str))
+            if irregular and grid and \
                     pr.group_loop is not None and a.lineno < pr.group_loop.lineno:
                 good = True
                 ctx.ok('C08.3', f, a, 'header arrays are re-allocated zero-filled with the grid size before the plane loop')
